@@ -80,6 +80,13 @@ theorem c09_baseline_allocs (bs : Bytes) (hb : IsBytes bs) :
     ∀ a ∈ (blDecode bs).1.allocs, a ≤ bs.length ∨ a ≤ 65533 ∨
       a ≤ 64 * ((blDecode bs).1.width * (blDecode bs).1.height) := blDecode_allocs bs hb
 
+/-- (5e) MEMORY, JPEG-LS near-lossless: the context table and the sample buffer are allocated at SOS,
+    once NEAR is known — same bound as the lossless decoder -/
+theorem c09_jlsnear_allocs (bs : Bytes) (hb : IsBytes bs) :
+    ∀ a ∈ (JlsH.nheader bs).1.allocs, a ≤ bs.length ∨ a ≤ 65533 ∨
+      a ≤ 8 * ((JlsH.nheader bs).1.width * (JlsH.nheader bs).1.height * (JlsH.nheader bs).1.comps) :=
+  JlsH.nheader_allocs bs hb
+
 example : IsBytes [0xff, 0xd8, 0xff, 0xc3] := by unfold IsBytes; decide
 
 end JM
